@@ -107,6 +107,9 @@ SHAPES_LEGACY = {
     "exts": ["none", "ems", "many", "unknown"],
     "tickets": [1],
     "pad_blocks": [1, 3],
+    # first byte of the encrypted Finished records where the sender chooses it (explicit IV / nonce): the values of the
+    # handshake message types a parser might mistake it for
+    "fin_first_byte": [0x01, 0x02, 0x14, 0x16],
 }
 SHAPES_13 = {
     "ccs13": [False],
